@@ -293,6 +293,91 @@ def main():
             if not (np.abs(np.asarray(sig)[0, 0] - want).max() <= 1e-9 * (1 + np.abs(want).max())) or not (np.abs(np.asarray(Calg)[0, 0] - np.asarray(ref.C)).max() <= 1e-8 * np.abs(ref.C).max()):
                 res.fail(f"material without internal variables is not linear elastic dim={dim} planeStress={ps}", "stress or tangent differs from C eps / C", dict(dim=dim, planeStress=ps, strain=eps.tolist()))
 
+    # ---------------- the same for every elastic symmetry class the constructor accepts, material axes turned in the plane ----------------
+    # expectation: the law's own 3D stiffness, cut (plane strain) or condensed on zz (plane stress) here with plain numpy
+    def aniso_laws(th):
+        c_, s_ = float(np.cos(th)), float(np.sin(th))
+        a1, a2 = (c_, s_, 0.0), (-s_, c_, 0.0)
+        return {"isotropic": lambda d, **kw: Models.Elastic.Isotropic(d, E=E, v=v, **kw),
+                "transversely isotropic": lambda d, **kw: Models.Elastic.TransverselyIsotropic(d, El=E, Et=E / 3, Gl=E / 4, vl=0.3, vt=0.2, axis_l=a1, axis_t=a2, **kw),
+                "orthotropic": lambda d, **kw: Models.Elastic.Orthotropic(d, E1=E, E2=E / 2, E3=E / 3, G12=E / 4, G13=E / 5, G23=E / 6, v12=0.3, v13=0.2, v23=0.1, axis_1=a1, axis_2=a2, **kw)}
+
+    def cut(C3, ps_):
+        C3 = np.asarray(C3, float)
+        Cpp = C3[np.ix_(IDX_2D, IDX_2D)]
+        if not ps_:
+            return Cpp
+        return Cpp - np.outer(C3[IDX_2D, 2], C3[2, IDX_2D]) / C3[2, 2]
+
+    for th in (0.0, np.pi / 6, rng.uniform(0.2, 1.3), np.pi / 2):
+        for lname, mkl in aniso_laws(th).items():
+            if lname == "isotropic" and th != 0.0:
+                continue
+            for dim, ps in ((3, False), (2, False), (2, True)):
+                identa = dict(elastic=lname, axes_angle=float(th), dim=dim, planeStress=ps)
+                tag = f"elastic={lname} dim={dim} planeStress={ps}"
+                res.case(("elastic-aniso", lname, round(float(th), 6), dim, ps))
+                try:
+                    C3 = np.asarray(mkl(3).C, float)
+                    Cw = C3 if dim == 3 else cut(C3, ps)
+                    beh = Behavior(dim, mkl(3), planeStress=ps)
+                    n = 6 if dim == 3 else 3
+                    eps = np.array([rng.gauss(0, 0.004) for _ in range(n)])
+                    sig, Calg, zz_, ok_ = beh.Integrate(fe(eps))
+                    sig, Calg = np.asarray(sig)[0, 0], np.asarray(Calg)[0, 0]
+                    want = Cw @ eps
+                    sc = np.abs(want).max()
+                    ida = dict(identa, strain=eps.tolist())
+                    if not (np.abs(sig - want).max() <= 1e-8 * sc) or not (np.abs(Calg - Cw).max() <= 1e-8 * np.abs(Cw).max()):
+                        res.fail(f"material without internal variables is not linear elastic {tag}",
+                                 f"max |sigma - C eps| / |sigma| = {np.abs(sig - want).max() / sc:.2e}, max |C_alg - C| / |C| = {np.abs(Calg - Cw).max() / np.abs(Cw).max():.2e} "
+                                 f"(C: 3D stiffness of the elastic law, cut / condensed on zz for the 2D hypothesis; axes turned by {th:.4f} rad in the plane)", ida)
+                    if ps:
+                        e6 = np.asarray(beh.Compute_strain_6d(fe(eps), zz_))[0, 0]
+                        szz = float((C3 @ e6)[2])
+                        if not (abs(szz) <= 1e-6 * sc):
+                            res.fail(f"out-of-plane stress in plane stress {tag}", f"sigma_zz = {szz:.3e} (|sigma| = {sc:.3e}) at the strain the material sees, no internal variable", ida)
+                    # with a yield surface on top: sigma_zz = 0 before and after yielding, and the elastic range is the same linear law
+                    if ps or dim == 3:
+                        bp = Behavior(dim, mkl(3), yieldSurface=Yield.VonMises(sy), hardening=IsotropicHardening.Linear(20.0), planeStress=ps)
+                        for fac in (0.02, 4.0):
+                            ep_ = fac * eps
+                            sg_, _, zn_, okp = bp.Integrate(fe(ep_))
+                            if not bool(np.asarray(okp).all()):
+                                continue
+                            sg_ = np.asarray(sg_)[0, 0]
+                            idp = dict(identa, behavior="VM+linear", strain=ep_.tolist())
+                            if fac < 1 and not (np.abs(sg_ - Cw @ ep_).max() <= 1e-8 * np.abs(Cw @ ep_).max() + 1e-7 * sy):
+                                res.fail(f"elastic range is not the linear elastic law {tag}", f"below yield, max |sigma - C eps| = {np.abs(sg_ - Cw @ ep_).max():.3e}", idp)
+                            if ps:
+                                e6 = np.asarray(bp.Compute_strain_6d(fe(ep_), None))[0, 0]
+                                s6 = np.asarray(bp.Compute_sigma(fe(e6), zn_))[0, 0]
+                                if not (abs(s6[2]) <= 1e-6 * max(sy, np.abs(sg_).max())):
+                                    res.fail(f"out-of-plane stress in plane stress {tag}", f"VM+linear: sigma_zz = {s6[2]:.3e} (|sigma| = {np.abs(sg_).max():.3e})", idp)
+                except Exception as ex:  # noqa: BLE001
+                    res.fail(f"anisotropic elastic behaviour raises {tag}", f"{type(ex).__name__}: {str(ex)[:150]}", identa)
+
+    # a simulation with such a material is the elastic simulation with the same law (plane stress and plane strain)
+    for ps in (True, False):
+        th = np.pi / 6
+        identa = dict(sim="InElastic vs Elastic", elastic="orthotropic", axes_angle=float(th), planeStress=ps, mesh="QUAD4 2 x 1, h = 0.5")
+        res.case(("elastic-aniso-sim", ps))
+        try:
+            mesha = M.mesh_2d("QUAD4", a=2.0, b=1.0, h=0.5)
+            mko = aniso_laws(th)["orthotropic"]
+            us_ = []
+            for sim_ in (Simulations.InElastic(mesha, Behavior(2, mko(3), planeStress=ps, thickness=0.7)), Simulations.Elastic(mesha, mko(2, planeStress=ps, thickness=0.7))):
+                sim_.add_dirichlet(mesha.Nodes_Conditions(lambda x, y, z: x == 0), [0.0, 0.0], ["x", "y"])
+                sim_.add_dirichlet(mesha.Nodes_Conditions(lambda x, y, z: x == 2.0), [0.01], ["x"])
+                sim_.Solve()
+                us_.append(np.asarray(sim_.displacement, float).copy())
+            gapa = np.abs(us_[0] - us_[1]).max() / np.abs(us_[1]).max()
+            if not (gapa <= 1e-8):
+                res.fail(f"material without internal variables is not linear elastic simulation planeStress={ps}",
+                         f"Simulations.InElastic with a behaviour without internal variables and Simulations.Elastic with the same orthotropic law (axes turned by 30 deg) differ: max |u gap| / |u| = {gapa:.2e}", identa)
+        except Exception as ex:  # noqa: BLE001
+            res.fail(f"anisotropic elastic simulation raises planeStress={ps}", f"{type(ex).__name__}: {str(ex)[:150]}", identa)
+
     # ---------------- simulation: committed state before / after Solve and Save_Iter ----------------
     mesh = M.mesh_2d("QUAD4", 2.0, 1.0, 0.5)
     beh = Behavior(2, Models.Elastic.Isotropic(3, E=E, v=v), yieldSurface=Yield.VonMises(sy), hardening=IsotropicHardening.Linear(20.0), thickness=1.0)
